@@ -21,13 +21,13 @@ CHECKS = {
  "C03": dict(cat="other", tech="abstract interpretation of optimised LLVM IR; boolean normal forms over mask bits under the representation invariant (assume on inputs, guarantee on outputs)",
    text="All mask operations of all mask types x configuration (& | ^ ! && || == != count any all none extract<I>/insert<I> for every I, construction from bool / array<bool>, Vector(mask), set_bits, mask(Vector)) are summarised into boolean formulas over the lane truth values and must equal the specified formula; results must be in canonical representation (k-register: bits >= N clear; lane mask: uniform lanes).",
    note=TB + "; memory passed as std::array<bool,N> holds valid bools (0/1)", ref="4/C03"),
- "C04": dict(cat="other", tech="abstract interpretation of optimised LLVM IR; bitwise/shift/rotate normal forms, x86 shift intrinsics by SDM saturation semantics, every compile-time amount enumerated",
+ "C04": dict(cat="other", tech="abstract interpretation of optimised LLVM IR; bitwise/shift/rotate normal forms, x86 shift intrinsics by SDM saturation semantics, every compile-time amount enumerated; emulated run-time amounts by a complete case split on the amount (each value substituted, wrapper re-summarised) after a syntactic lane-independence check",
    text="& | ^ ~, shifts by scalar / per-lane vector / compile-time amount (every S in [0,bits]) and rotations (compile-time amounts up to 2*bits+3, run-time scalar and per-lane) of every integer vector type x configuration must normalise to the saturating shift / funnel-shift closed form of the same lane; amounts are constrained to the documented domain by the argument encoding.",
    note=TB + "; shift amounts assumed in [0, 2*bits) (superset of the documented [0,bits])", ref="4/C04"),
- "C06": dict(cat="other", tech="abstract interpretation of optimised LLVM IR; ctpop/ctlz/cttz/bswap primitive forms and byte provenance; poison (zero-undef, over-wide shift) reachable on a valid input is a refutation",
+ "C06": dict(cat="other", tech="abstract interpretation of optimised LLVM IR into closed forms; ctpop/ctlz/cttz/bswap primitive normal forms and byte provenance; truth tables for 8/16-bit lanes; known-bits x interval abstract interpretation under complete case splits (position of the highest/lowest set or clear bit) for 32/64-bit lanes incl. int->float-exponent emulations; poison (zero-undef, over-wide shift) reachable on a valid input is a refutation",
    text="popcount, countl/r_zero/one, bit_width, has_single_bit, countl_sign are decided where the build's ISA gives the primitive (LZCNT/BMI/POPCNT/AVX-512CD/VPOPCNTDQ/BITALG) by normal form; byteswap is decided for all types by byte provenance; emulated versions are compared as closed forms against the <bit> definition (REFUTED with a witness when they are fully interpreted and differ, otherwise UNDECIDED and listed).",
-   note=TB + "; emulations built on float-exponent tricks / nibble lookup are listed UNDECIDED, not covered", ref="4/C06"),
- "C07": dict(cat="other", tech="abstract interpretation of optimised LLVM IR; select/min/max/abs/sign-bit normal forms; ordered-case table for float min/max",
+   note=TB + "; the abstract transfer functions over-approximate the concrete evaluator (bin/selftest_absint.py); SWAR popcount on 32/64-bit lanes stays UNDECIDED, not covered", ref="4/C06"),
+ "C07": dict(cat="other", tech="abstract interpretation of optimised LLVM IR; select/min/max/abs/sign-bit normal forms; carry-save averaging identity and adder narrowing as normal-form rules, alternative specification form for midpoint (derivation in spec/ops.py, cross-checked exhaustively at 8 bits on every run); ordered-case table for float min/max",
    text="blend/keep/clear (select on the mask lane, operand order), integer min/max/minmax/clamp (predicate of the type's signedness), abs/neg_abs/negate (no nsw: abs(MIN) is MIN's pattern), float abs/neg_abs/negate/copysign (sign bit only), float min/max (picks smaller/larger operand in both strict orderings) are decided for every type x configuration; average/midpoint emulations are compared as closed forms (witness-refutable, else UNDECIDED).",
    note=TB + "; clamp witnesses restricted to lo<hi; float min/max only for ordered inputs as the statement scopes it", ref="4/C07"),
  "C08": dict(cat="other", tech="byte provenance over optimised LLVM IR (load/store/masked/gather/scatter/shuffle transfer functions), exhaustive over element counts and lane indices; alignment-claim and poison obligations",
@@ -39,7 +39,7 @@ CHECKS = {
  "C11": dict(cat="other", tech="rounding-primitive normal forms (SDM ROUND/RNDSCALE immediates) + whole-catalogue effect inventory with bit-level provenance of MXCSR writers",
    text="(value) ceil/floor/trunc/nearbyint/rint of every float type x configuration must be exactly one rounding primitive with the immediate / libm function of that name on the same lane (a different primitive is refuted from a value table, incl. mode-independent immediates for nearbyint/rint); round-half-away and SSE2 cvtt-based emulations are UNDECIDED. (fenv) every wrapper of the catalogue is scanned for MXCSR / fenv writers in the resolved IR: each LDMXCSR must write back bits 6..15 exactly as read by the preceding STMXCSR; a positive control requires the known writers (quiet comparisons below AVX) to be found.",
    note=TB + "; quick tier scans the float families, thorough every family", ref="4/C11"),
- "C13": dict(cat="other", tech="finite field-partition decision procedure over closed forms (sign x exponent x mantissa intervals induced by field-aligned atoms); fcmp predicate normal forms",
+ "C13": dict(cat="other", tech="finite partition decision procedures over closed forms: field-aligned partition (sign x exponent x mantissa intervals) and, for compares assembled from sub-field pieces, the general segment partition (lane cut at every atom boundary, representatives realising every per-segment trichotomy); fcmp predicate normal forms",
    text="fpclassify/isnan/isinf/isfinite/isnormal/signbit of every float type x configuration: the lane's closed form may touch the value only through field-aligned comparison atoms (whole pattern, abs, exponent, mantissa, sign, vfpclass); it is then constant on each cell of a finite partition and is evaluated on every cell against the C library classification - exhaustive for all 2^32 / 2^64 patterns. Quiet comparisons must be the fcmp predicate of that name.",
    note=TB + "; SDM VFPCLASS category table", ref="4/C13"),
  "C17": dict(cat="other", tech="byte/bit provenance over optimised LLVM IR for every provided conversion pair",
